@@ -18,6 +18,7 @@ import (
 	"strings"
 	"time"
 
+	"github.com/google/gce-tcb-verifier/endorse"
 	"github.com/google/gce-tcb-verifier/keys"
 	epb "github.com/google/gce-tcb-verifier/proto/endorsement"
 	styp "github.com/google/gce-tcb-verifier/sign/types"
@@ -38,6 +39,7 @@ type injector struct {
 	log   []string
 	w     *kmfx.World
 	fault []string
+	off   bool // after the rotation: seam calls pass through without choice points
 	// monitor results
 	destroyChecked bool
 	destroyBad     string
@@ -46,6 +48,9 @@ type injector struct {
 // step is called around every seam call: returns an error to answer with (fault), else runs op and
 // may crash after it.
 func (i *injector) step(label string, op func() error) error {
+	if i.off {
+		return op()
+	}
 	ch := i.c.Choose(3, label)
 	i.log = append(i.log, fmt.Sprintf("%s=%d", label, ch))
 	if ch == 1 {
@@ -282,6 +287,7 @@ func main() {
 				}
 				var rotErr error
 				var crashed *crash
+				var sess *kmfx.Session
 				func() {
 					defer func() {
 						if x := recover(); x != nil {
@@ -293,6 +299,7 @@ func main() {
 						}
 					}()
 					_, rotErr = w.Rotate(kmfx.RotateOpts{Now: tRot.Add(24 * time.Hour)}, kmfx.Flags{}, func(s *kmfx.Session) {
+						sess = s
 						s.Keys.Manager = &fManager{s.Keys.Manager, in}
 						s.Keys.Signer = &fSigner{s.Keys.Signer, in}
 						s.Keys.CA = &fCA{s.Keys.CA, in}
@@ -319,6 +326,34 @@ func main() {
 					outcome = "crash"
 				} else if rotErr != nil {
 					outcome = "error"
+				}
+				// The process that saw the rotation fail (no crash) goes on: with the very same key
+				// manager, signer and authority objects, endorsing must keep working.
+				if crashed == nil && rotErr != nil && sess != nil {
+					in.off = true
+					if w.Store != nil {
+						w.Store.Pre, w.Store.Post = nil, nil
+					}
+					var e *epb.VMLaunchEndorsement
+					var serr error
+					pan, val := mc.Guard(func() {
+						e, serr = endorse.SignDoc(endorse.NewContext(sess.Ctx, &endorse.Context{Timestamp: tNow}), doc())
+					})
+					switch {
+					case pan:
+						r.Violation(key("same-process-endorse-fails"), id, fmt.Sprintf("after the failed rotation [%s] endorsing with the same objects panics: %v", devs, val), detail)
+					case serr != nil:
+						r.Violation(key("same-process-endorse-fails"), id, fmt.Sprintf("after the failed rotation [%s] (error: %v) the same process can no longer endorse: %v", devs, rotErr, serr), detail)
+					default:
+						st := w.Inspect()
+						if st.Root != nil {
+							pool := x509.NewCertPool()
+							pool.AddCert(st.Root)
+							if verr := verify.EndorsementProto(e, &verify.Options{RootsOfTrust: pool, Now: tNow}); verr != nil {
+								r.Violation(key("same-process-endorsement-unverifiable"), id, fmt.Sprintf("after the failed rotation [%s] the same process signs an endorsement that does not verify: %v", devs, verr), detail)
+							}
+						}
+					}
 				}
 				// Post-fault state after reload.
 				msg := invariant(w, tNow)
